@@ -148,7 +148,7 @@ def _child(op, state, case, want_log=False):
             import xonsh.lib.lazyjson as L
 
             inj = crashx.Injector(*case)
-            o, osh, tsh = crashx.make_shims(inj)
+            o, osh, tsh = crashx.make_shims(inj, stat_seam=True)
             J.open = o
             J.os = osh
             J.tempfile = tsh
